@@ -1,2 +1,93 @@
-(** C05 — placeholder while the proofs are being built *)
-From Geo Require Import Model.Coverer.
+(** C05 — Coverings cover, interior coverings are contained, level limits are honoured.
+    Only statements; every proof is [exact] of a lemma in Proofs/C05_*.v.
+
+    The subject is the executable model of s2/regioncoverer.go in Model/Coverer.v (tied to the Go
+    code by the correspondence run and, for the cell-id arithmetic, by the translator: the
+    [s2_CellID_*] functions are regenerated from /repo on every run).  The model is parametric in
+    the region: [intersects]/[contains] are the region's IntersectsCell/ContainsCell as functions
+    of the cell id, [bound] its CellUnionBound, [fallback] the result of the nested
+    [NewRegionCoverer().Covering(&covering)] call in normalizeCovering.
+
+    Region semantics: [pts : Z -> Prop] on leaf cell ids;
+    [leaf_in x c := RangeMin c <= x <= RangeMax c]; [covered l x := exists c in l, leaf_in x c].
+    [SoundI], [SoundC], [SoundB] are the one-sided safety of the region's predicates (second
+    sentence of the property).  For s2.Cap / Rect / Loop / Polygon / Polyline they are the carried
+    hypotheses H-CAPARITH / H-LATBOUND / H-CLIP / H-JORDAN (float geometry, attacked by the
+    observer on every run); [ValidB] says the bound consists of valid cell ids. *)
+From Coq Require Import ZArith List Bool.
+From Geo Require Import Base.GoPrim Gen.CellIDCov Model.Coverer.
+From Geo Require Import Proofs.C05_CellFacts Proofs.C05_CellUnion Proofs.C05_Coverer Proofs.C05_Fast Proofs.C05_Main.
+Import ListNotations.
+Local Open Scope Z_scope.
+
+(** Covering covers: every leaf of the region lies in a returned cell — for every configuration
+    (all four option fields are arbitrary integers; clamping is part of the model). *)
+Theorem covering_covers : forall intersects contains bound fallback pts rc,
+  ValidB bound -> FallbackOK fallback -> SoundI intersects pts -> SoundB bound pts ->
+  forall r, Covering intersects contains bound fallback rc = Some r ->
+  forall x, is_leaf x -> pts x -> covered r x.
+Proof. exact covering_covers_lemma. Qed.
+Print Assumptions covering_covers.
+
+Theorem cellunion_covers : forall intersects contains bound fallback pts rc,
+  ValidB bound -> FallbackOK fallback -> SoundI intersects pts -> SoundB bound pts ->
+  forall r, CellUnion intersects contains bound fallback rc = Some r ->
+  forall x, is_leaf x -> pts x -> covered r x.
+Proof. exact cellunion_covers_lemma. Qed.
+Print Assumptions cellunion_covers.
+
+(** FastCovering covers; it needs the bound only. *)
+Theorem fast_covering_covers : forall bound fallback pts rc,
+  ValidB bound -> FallbackOK fallback -> SoundB bound pts ->
+  forall r, FastCovering bound fallback rc = Some r ->
+  forall x, is_leaf x -> pts x -> covered r x.
+Proof. exact fast_covering_covers_lemma. Qed.
+Print Assumptions fast_covering_covers.
+
+(** Interior coverings are contained: every leaf of every returned cell is a region leaf. *)
+Theorem interior_contained : forall intersects contains bound fallback pts rc,
+  ValidB bound -> FallbackOK fallback -> SoundC contains pts ->
+  forall r, InteriorCovering intersects contains bound fallback rc = Some r ->
+  forall c, In c r -> forall x, is_leaf x -> leaf_in x c -> pts x.
+Proof. exact interior_contained_lemma. Qed.
+Print Assumptions interior_contained.
+
+Theorem interior_cellunion_contained : forall intersects contains bound fallback pts rc,
+  ValidB bound -> FallbackOK fallback -> SoundC contains pts ->
+  forall r, InteriorCellUnion intersects contains bound fallback rc = Some r ->
+  forall c, In c r -> forall x, is_leaf x -> leaf_in x c -> pts x.
+Proof. exact interior_cellunion_contained_lemma. Qed.
+Print Assumptions interior_cellunion_contained.
+
+(** Level limits: every cell of Covering / InteriorCovering is a valid cell id whose level L
+    satisfies minLevel <= L <= max(maxLevel, minLevel) and (L - minLevel) mod levelMod = 0,
+    for the clamped options (when MinLevel > MaxLevel, MinLevel wins, as in the Go code). *)
+Theorem levels_ok : forall intersects contains bound fallback rc,
+  ValidB bound -> FallbackOK fallback ->
+  forall r, (Covering intersects contains bound fallback rc = Some r \/
+             InteriorCovering intersects contains bound fallback rc = Some r) ->
+  Forall (fun c => valid c /\
+                   clampMinLevel rc <= s2_CellID_Level c <= Z.max (clampMaxLevel rc) (clampMinLevel rc) /\
+                   (s2_CellID_Level c - clampMinLevel rc) mod clampLevelMod rc = 0) r.
+Proof. intros i c b f rc. exact (levels_ok_lemma i c b f (fun _ => True) rc). Qed.
+Print Assumptions levels_ok.
+
+(** Termination: the Go main loop has no fuel; the model's loop (2^(201+n) - 1 iterations allowed,
+    n = initial queue length) never runs out, so every entry point returns a result. *)
+Theorem coverer_terminates : forall intersects contains bound fallback rc,
+  ValidB bound -> FallbackOK fallback ->
+  (exists r, Covering intersects contains bound fallback rc = Some r) /\
+  (exists r, InteriorCovering intersects contains bound fallback rc = Some r) /\
+  (exists r, CellUnion intersects contains bound fallback rc = Some r) /\
+  (exists r, InteriorCellUnion intersects contains bound fallback rc = Some r) /\
+  (exists r, FastCovering bound fallback rc = Some r).
+Proof. intros i c b f rc. exact (terminates_lemma i c b f (fun _ => True) rc). Qed.
+Print Assumptions coverer_terminates.
+
+(** The hypotheses are satisfiable: the region consisting of face cell 0 (all its leaves), with exact
+    predicates computed from id ranges, the face as its own bound and an identity fallback. *)
+Example hypotheses_satisfiable :
+  let face0 := s2_CellIDFromFace 0 in
+  let pts := fun x => leaf_in x face0 in
+  ValidB [face0] /\ FallbackOK (fun l => Some l) /\ SoundB [face0] pts.
+Proof. exact hyps_example. Qed.
